@@ -125,8 +125,8 @@ def rules(ctx, tier):
             check_callback_list(ctx, r, b, site, fcont)
     for site in direct_unlinks:
         check_direct_unlink(ctx, r, site, fcont)
-    r.check(n_cb >= 2, "callback-sites", None, "%d delete-callback call site(s)" % n_cb,
-            "expected at least 2 delete-callback call sites, found %d" % n_cb)
+    r.check(n_cb >= 1, "callback-sites", None, "%d delete-callback call site(s)" % n_cb,
+            "expected at least 1 delete-callback call site, found %d" % n_cb)
     r.need(9, "2 callback sites x3 + 3 direct unlinks x2")
     out.append(r.finish())
 
@@ -137,15 +137,24 @@ def rules(ctx, tier):
     must = ctx.must(None)
     ENTRY = must.entry_sets(ctx.live_roots())
     n = 0
-    for site in ctx.sem_sites("BLOB_PUBLISH"):
-        S = must.at_site(ENTRY, site)
-        if S is None:
+    done = set()
+    for chain in ctx.sem_chains("BLOB_PUBLISH"):
+        site = chain[0]
+        sets = ctx.must_before(must, ENTRY, site, "BLOB_PUBLISH")
+        if sets is None:
             continue
+        # the frame that owns the intent guard: the innermost one whose body makes the registering call
+        frame = ctx.deepest_frame(chain, lambda b: any(
+            "INTENT_ADD" in sem_set(ctx.may.site_events(s)) for s in b.calls()))
+        if frame.key() in done:
+            continue
+        done.add(frame.key())
         n += 1
-        r.check("INTENT_ADD" in sem_set(S), "INTENT_ADD@BLOB_PUBLISH", site.body,
-                "an intent is registered before the publish at %s" % site_where(site),
-                "the blob is published at %s before any intent is registered" % site_where(site), site_where(site))
-        guard_alive(ctx, r, site)
+        names = set.intersection(*[sem_set(S) for S in sets])
+        r.check("INTENT_ADD" in names, "INTENT_ADD@BLOB_PUBLISH", frame.body,
+                "an intent is registered before the publish at %s" % site_where(frame),
+                "the blob is published at %s before any intent is registered" % site_where(frame), site_where(frame))
+        guard_alive(ctx, r, frame)
     r.need(3, "publish site: intent first, guard live, guard consumed by the apply call")
     out.append(r.finish())
 
@@ -200,7 +209,7 @@ def rules(ctx, tier):
                             site_where(a), site_where(d), b.path))
                 # own intent removed and filter evaluated inside the same region, under the lock
         # intent removal / filter sites in this body are covered by R1 (held) and R2 (dominance)
-    r.need(8, "2 apply+delete bodies x4")
+    r.need(4, "at least one apply+delete body x4 (today: 2 bodies)")
     out.append(r.finish())
 
     # ------------------------------------------------------------------ R5
